@@ -1,10 +1,11 @@
 package rules
 
 import (
-	"go/types"
-	"strconv"
 	"fmt"
 	"go/token"
+	"go/types"
+	"regexp"
+	"strconv"
 	"strings"
 
 	"golang.org/x/tools/go/ssa"
@@ -200,10 +201,74 @@ func ruleHostsVerdictIsLookup(c *Ctx, rule string) {
 }
 
 // ruleHostsPatternsOnlyLowered — C14.R1b: the patterns Hosts.Add / Hosts.Delete hand to their tree are the caller's
-// domains lower-cased and nothing else: a request host is normalised (port, brackets), a configured domain pattern is
-// not — stripping a "port" from a pattern eats the last group of an unbracketed IPv6 literal or a regexp's `:`.
+// domains with the domain *name* lower-cased and nothing else:
+//
+//   - a request host is normalised (port, brackets), a configured domain pattern is not — stripping a "port" from a
+//     pattern eats the last group of an unbracketed IPv6 literal or a regexp's `:`;
+//   - the text inside {...} — parameter names, regexp rules, interceptor keys — is case-sensitive (`\D` is not `\d`,
+//     the interceptor "Answer" is not "answer"): strings.ToLower is applied to the text before a '{' (a slice that
+//     ends at IndexByte(text, '{')) or to text known to contain no '{', never to the whole pattern;
+//   - Add and Delete normalise in the same way (otherwise Delete does not find what Add registered).
 func ruleHostsPatternsOnlyLowered(c *Ctx, rule string) {
-	c.R.Rule(c.R.Property+"."+rule, 2, "Add and Delete register / remove exactly the named domain, lower-cased")
+	c.R.Rule(c.R.Property+"."+rule, 2, "Add and Delete register / remove exactly the named domain, its name lower-cased, the text inside {} untouched")
+	// derived: the caller's domain or a part of it (re-sliced in a loop)
+	var derived func(v ssa.Value, seen map[ssa.Value]bool) bool
+	derived = func(v ssa.Value, seen map[ssa.Value]bool) bool {
+		if seen[v] {
+			return true
+		}
+		seen[v] = true
+		switch x := v.(type) {
+		case *ssa.Parameter:
+			return isStringType(x.Type())
+		case *ssa.Phi:
+			for _, e := range x.Edges {
+				if !derived(e, seen) {
+					return false
+				}
+			}
+			return true
+		case *ssa.Slice:
+			return derived(x.X, seen)
+		case *ssa.UnOp:
+			// the loop variable of `for _, d := range domains`
+			return x.Op == token.MUL && strings.HasPrefix(an.AP(x), "p:")
+		case *ssa.Extract:
+			return strings.HasPrefix(an.AP(x), "p:")
+		}
+		return strings.HasPrefix(an.AP(v), "p:") && isStringType(v.Type())
+	}
+	isBraceIndex := braceIndexCall
+	noBraceEdge := func(text ssa.Value) func(b *ssa.BasicBlock, succ int) bool {
+		return func(b *ssa.BasicBlock, succ int) bool {
+			return edgeHas(b, succ, func(cond ssa.Value, truth bool) bool {
+				if bo, ok := cond.(*ssa.BinOp); ok && isBraceIndex(bo.X, text) {
+					kc, isK := bo.Y.(*ssa.Const)
+					if !isK {
+						return false
+					}
+					k := an.ConstKey(kc)
+					switch {
+					case bo.Op == token.LSS && k == "0", bo.Op == token.EQL && k == "-1":
+						return truth
+					case bo.Op == token.GEQ && k == "0", bo.Op == token.NEQ && k == "-1":
+						return !truth
+					}
+				}
+				if call, ok := cond.(*ssa.Call); ok {
+					switch an.CalleeName(&call.Call) {
+					case "strings.Contains":
+						k, isS := strConst(call.Call.Args[1])
+						return isS && k == "{" && call.Call.Args[0] == text && !truth
+					case "strings.ContainsRune", "strings.ContainsAny":
+						return call.Call.Args[0] == text && !truth && strings.Contains(c.O.Of(call.Call.Args[1]).String(), "123") || (call.Call.Args[0] == text && !truth && strings.Contains(c.O.Of(call.Call.Args[1]).String(), "{"))
+					}
+				}
+				return false
+			})
+		}
+	}
+	forms := map[string]string{}
 	for _, spec := range []struct{ key, target string }{{"mux.(*Hosts).Add", "tree.(*Tree).Add"}, {"mux.(*Hosts).Delete", "tree.(*Tree).Remove"}} {
 		f := c.P.MustFunc(spec.key)
 		n := 0
@@ -217,19 +282,85 @@ func ruleHostsPatternsOnlyLowered(c *Ctx, rule string) {
 					return
 				}
 				g := an.StaticCallee(call)
-				if g == nil || an.FuncKey(g) != spec.target {
+				if g == nil {
+					return
+				}
+				if an.CalleeName(call) == "strings.ToLower" && derived(call.Args[0], map[ssa.Value]bool{}) {
+					arg := call.Args[0]
+					ok := false
+					if sl, isSl := arg.(*ssa.Slice); isSl && sl.Low == nil && sl.High != nil && isBraceIndex(sl.High, sl.X) {
+						ok = true // the text before the '{'
+					} else if an.DominatedByEdge(in, noBraceEdge(arg)) {
+						ok = true // text without a '{'
+					}
+					c.R.Add(rule, c.fk(fn), "lower:"+c.O.Of(arg).String()+"/only-outside-braces", c.pos(in), ok, ifelse(ok, "lower-cased text is the part before a '{' or contains none", "a domain pattern is lower-cased as a whole, including the text inside {...}: a regexp rule `\\D+` becomes `\\d+`, an interceptor key \"Answer\" becomes \"answer\" (no interceptor, so a regexp), a parameter `Sub` is reported as `sub` — the registered domain is not the one the caller named"))
+				}
+				if an.FuncKey(g) != spec.target {
 					return
 				}
 				n++
 				t := c.O.Of(call.Args[1]).String()
-				good := strings.HasPrefix(t, "call<strings.ToLower>(") && strings.Count(t, "call<") == 1 && !strings.Contains(t, "slice")
-				c.R.Add(rule, c.fk(fn), "call:"+spec.target+"/pattern=ToLower(domain)", c.pos(in), good, ifelse(good, t, "the pattern handed to the tree is "+t+": a configured domain is transformed by more than lower-casing"))
+				good := false
+				switch {
+				case strings.HasPrefix(t, "call<strings.ToLower>(") && strings.Count(t, "call<") == 1 && !strings.Contains(t, "slice"):
+					good = true // (whether the whole pattern may be lower-cased is the obligation above)
+				case strings.HasPrefix(t, "call<mux.") && strings.Count(t, "call<") == 1 && !strings.Contains(t, "slice"):
+					// a normaliser of the module: what it returns is assembled from lower-cased parts and verbatim parts of its argument
+					if nf := an.StaticCallee(an.CallOf(valueInstr(call.Args[1]))); nf != nil && len(nf.Params) == 1 {
+						good = true
+						an.AllInstrs(nf, func(w ssa.Instruction) {
+							wc := an.CallOf(w)
+							if wc == nil {
+								return
+							}
+							switch an.CalleeName(wc) {
+							case "strings.(*Builder).WriteString":
+								x := wc.Args[1]
+								if lc, isCall := x.(*ssa.Call); isCall && an.CalleeName(&lc.Call) == "strings.ToLower" {
+									x = lc.Call.Args[0]
+								}
+								if !derived(x, map[ssa.Value]bool{}) {
+									good = false
+								}
+							case "strings.(*Builder).WriteByte", "strings.(*Builder).WriteRune", "strings.(*Builder).Write":
+								good = false
+							}
+						})
+					}
+				}
+				forms[spec.key] = regexp.MustCompile(`(p:|param:)\w+(\[\])?`).ReplaceAllString(t, "domain")
+				c.R.Add(rule, c.fk(fn), "call:"+spec.target+"/pattern=ToLower(domain)", c.pos(in), good, ifelse(good, t, "the pattern handed to the tree is "+t+": a configured domain is transformed by more than lower-casing its name"))
 			})
 		}
 		if n == 0 {
 			c.R.Add(rule, spec.key, "call:"+spec.target+"/pattern=ToLower(domain)", c.P.Pos(f.Pos()), false, spec.key+" no longer reaches "+spec.target)
 		}
 	}
+	same := forms["mux.(*Hosts).Add"] == forms["mux.(*Hosts).Delete"]
+	c.R.Add(rule, "mux.(*Hosts)", "Add/Delete/same-normalisation", "-", same, ifelse(same, "Add and Delete normalise the domain in the same way: "+forms["mux.(*Hosts).Add"], "Add registers "+forms["mux.(*Hosts).Add"]+" but Delete removes "+forms["mux.(*Hosts).Delete"]+": a domain registered with upper-case letters cannot be deleted"))
+}
+
+// braceIndexCall: v is the position of the first '{' in text (any text when text is nil).
+func braceIndexCall(v ssa.Value, text ssa.Value) bool {
+	call, ok := v.(*ssa.Call)
+	if !ok {
+		return false
+	}
+	switch an.CalleeName(&call.Call) {
+	case "strings.IndexByte", "strings.IndexRune":
+		k, isK := call.Call.Args[1].(*ssa.Const)
+		return isK && k.Value != nil && k.Value.ExactString() == "123" && (text == nil || call.Call.Args[0] == text)
+	case "strings.Index":
+		k, isS := strConst(call.Call.Args[1])
+		return isS && k == "{" && (text == nil || call.Call.Args[0] == text)
+	}
+	return false
+}
+
+// valueInstr: the instruction that defines v (nil for parameters and constants).
+func valueInstr(v ssa.Value) ssa.Instruction {
+	in, _ := v.(ssa.Instruction)
+	return in
 }
 
 // rulePatternsEnterThroughTheParser — C05.R11: the segments from which Tree.Add builds nodes are, on every path, the
@@ -496,11 +627,14 @@ func ruleListHeaderReadCompletely(c *Ctx, rule string) {
 // ruleInterceptorSelection — C02.R12 / C01.R15: which user function constrains a parameter, and what it is asked.
 //
 // (a) The function stored as a segment's matcher is the accept-all literal (named parameters) or the entry found by
-//     an exact, comma-ok lookup of the rule text in the interceptor table — directly or through a helper all of whose
-//     returns are that. A fallback search (case-folded, prefix, …) lets a regexp rule that merely resembles an
-//     interceptor's key be taken over by that interceptor.
+//
+//	an exact, comma-ok lookup of the rule text in the interceptor table — directly or through a helper all of whose
+//	returns are that. A fallback search (case-folded, prefix, …) lets a regexp rule that merely resembles an
+//	interceptor's key be taken over by that interceptor.
+//
 // (b) A module function that wraps the call of a segment's matcher returns the matcher's verdict on every path: a
-//     pre-filter (empty values are never handed to the function) decides instead of the user's constraint.
+//
+//	pre-filter (empty values are never handed to the function) decides instead of the user's constraint.
 func ruleInterceptorSelection(c *Ctx, rule string) {
 	c.R.Rule(c.R.Property+"."+rule, 1, "a parameter is constrained by exactly the interceptor its rule text names, and that function alone decides")
 	var fromExactLookup func(v ssa.Value, depth int) bool
